@@ -614,4 +614,23 @@ def run (s : State) : List Tx → State
   | [] => s
   | t :: ts => run (runTx s t).1 ts
 
+
+/-! ## recovery `RotateRecoveryAddress`, as far as custody and the bank are concerned
+
+The fee payer pays the recovery fee; all coins of `old` move to `new`; every custody record kept under `old` (settings,
+custodians, whitelist, limits, limit statuses, the pool of pending transfers) is dropped there and stored under `new`
+(a record `new` had is overwritten only when `old` has one). The pending transfers still name `old` as their payer, and
+the custodians' votes stay under the (voter, target, hash) keys they were cast with. -/
+def rotate (s : State) (old new payer : Addr) (fee : Nat) : Option State :=
+  match subCoins s.bal payer (if fee = 0 then [] else [(0, fee)]) with
+  | none => none
+  | some b0 =>
+    let mv {β : Type} (f : Addr → Option β) : Addr → Option β :=
+      match f old with
+      | some v => upd (upd f old none) new (some v)
+      | none => f
+    let bal' : Bal := fun a d => if a = new then b0 new d + b0 old d else if a = old then 0 else b0 a d
+    some { s with settings := mv s.settings, custodians := mv s.custodians, whitelist := mv s.whitelist,
+                  limits := mv s.limits, status := mv s.status, pool := mv s.pool, bal := bal' }
+
 end Sekai.Custody
